@@ -1,7 +1,7 @@
 (* C09  Expression types follow the language's conversion rules.
    Statements only; every proof is `exact <lemma>`. *)
 From CV Require Import Base.Bytes Lit.Platform Lit.Gen_Platforms TypeConv.Gen_TypeRank TypeConv.Defs TypeConv.Spec
-  TypeConv.Proofs TypeConv.LitProofs TypeConv.Explain TypeConv.Refuted.
+  TypeConv.Proofs TypeConv.LitProofs TypeConv.Explain TypeConv.Parametric TypeConv.Refuted.
 Local Open Scope N_scope.
 
 (* on every assignment of widths with 1 < char < short < int < long < long long (strictly), for all
@@ -77,6 +77,39 @@ Theorem C09_explain_0_agrees cpp w op a b : explain cpp w op a b = 0 ->
   ctype_of (result_type (opk_of op) (vt_of a) (vt_of b)) = Some (c_result cpp w op a b).
 Proof. exact (explain_0_agrees cpp w op a b). Qed.
 Print Assumptions C09_explain_0_agrees.
+
+(* UNBOUNDED version of the table theorem: for EVERY assignment of widths with
+   1 < char <= short <= int <= long <= long long (any equalities; all shipped platforms and any platform
+   file are instances), every language, operator class and operand pair: the model gives the ISO C type,
+   or the disagreement is in one of the five classes; the class is decided by `explain` from the operand
+   types and the width (in)equalities.  Proof: spec, model and `explain` depend on the widths only through
+   their order type (canon), and each of the 16 x 2 order types is checked by computation *)
+Theorem C09_deviations_explained_for_all_widths w cpp op a b : ordered w -> explain cpp w op a b <> 9.
+Proof. exact (deviations_explained_for_all_widths w cpp op a b). Qed.
+Print Assumptions C09_deviations_explained_for_all_widths.
+
+Theorem C09_result_type_spec_for_all_widths w cpp op a b : ordered w ->
+  ctype_of (result_type (opk_of op) (vt_of a) (vt_of b)) = Some (c_result cpp w op a b) \/
+  (1 <= explain cpp w op a b /\ explain cpp w op a b <= 5).
+Proof. exact (result_type_spec_for_all_widths w cpp op a b). Qed.
+Print Assumptions C09_result_type_spec_for_all_widths.
+
+(* the five classes, exactly: 1 equal width of a lower-ranked unsigned and a higher-ranked signed operand,
+   2 an unsigned operand below int that int cannot represent, 3 C comparison, 4 C conditional of one small
+   type, 5 conditional of two different types of one rank; any class means disagreement *)
+Theorem C09_explain_class_sound cpp w op a b :
+  let k := explain cpp w op a b in
+  (k = 1 -> cause_equal_width w a b = true /\ (op = CArith \/ op = CCond)) /\
+  (k = 2 -> (cause_promotion w a = true \/ cause_promotion w b = true) /\ op <> CCompare) /\
+  (k = 3 -> cpp = false /\ op = CCompare) /\
+  (k = 4 -> cpp = false /\ op = CCond /\ small_same a b = true) /\
+  (k = 5 -> op = CCond /\ crank a = crank b /\ ctype_eqb a b = false) /\
+  (k <> 0 -> agrees cpp w op a b = false).
+Proof. exact (explain_class_sound cpp w op a b). Qed.
+Print Assumptions C09_explain_class_sound.
+
+Example C09_ex_ordered_ilp32 : ordered (widths_of plat_unix32).
+Proof. unfold ordered; vm_compute; repeat split; try discriminate; reflexivity. Qed.
 
 (* non-vacuity: strict widths exist (LP64), and a platform of the table has them *)
 Example C09_ex_strict : strict (mkW 8 16 32 64 128 true).
